@@ -624,7 +624,11 @@ func childMain() {
 	joinSender = func(key string) {
 		srv.SendActiveMessage(service.NewActiveMessage(key, consts.JT808CommandType(0x8104), nil, 100*time.Millisecond))
 	}
-	go srv.Run()
+	go func() {
+		srv.Run() // returns only when it cannot listen: another process took the port between picking it and listening on it
+		fmt.Fprintln(os.Stderr, "HARNESS-ERROR the server could not listen on", addr)
+		os.Exit(2)
+	}()
 	// wait until the listener accepts
 	up := false
 	for try := 0; try < 400; try++ {
